@@ -8,7 +8,10 @@ TRUSTED = ['correspondence: harness/sched.py (deterministic scheduler; stand-ins
            'oracle: harness/refcodec.py (RFC 6455 client-frame decoder, zlib RFC 7692 peer) + rules in harness/thrutil.py written from the property text',
            'the claim that the recorded accesses are the only shared-state accesses of the send paths (every observed access is checked '
            'against the AST-derived map; an access from an unknown line is reported)']
-ASSUMPTIONS = ['preemption is explored at source-line granularity (sys.settrace) plus the point between the two halves of sendall; '
+ASSUMPTIONS = ['the model variant (compress under the write lock or not; close() atomic or not) is chosen from single-threaded probe runs of the real code '
+               '(thrutil.detect_variant: are the zlib accesses / the flag stores logged between acq and rel?), not from the source shape; '
+               'a wrong choice can only produce model/real disagreements',
+               'preemption is explored at source-line granularity (sys.settrace) plus the point between the two halves of sendall; '
                "the GIL's real switch points inside a line, C-level atomicity of zlib calls and sendall, and memory visibility are outside the model",
                'the simulated socket never fails and writes each sendall in two halves',
                'arguments are valid (argument checking is thread-local: C03)',
@@ -138,8 +141,11 @@ def explore(res, tier, seed, model_ok=True):
     for f in fams:
         res.exhaustive['sync_interleavings %s z=%d pb=%s [%s]' % (f['family'], f['z'], f.get('pb') or 'none', thrutil.progs_str(f)[:60])] = f.get('n_schedules', 0)
     cases += enum
-    cases += thrutil.random_sync_cases(rng, fams, 300 if quick else 3000)
-    cases += line_cases(rng, 120 if quick else 1500)
+    # when compression sits under the write lock the exhaustive sets are small (the lock serialises the
+    # whole send): spend the time on more random schedules instead
+    boost = 4 if len(enum) < 2000 else 1
+    cases += thrutil.random_sync_cases(rng, fams, (300 if quick else 3000) * boost)
+    cases += line_cases(rng, (120 if quick else 1500) * boost)
     reals = thrutil.run_and_compare(res, cases, thrutil.judge_wire, model_ok)
     res.samples += [dict(programs=thrutil.progs_str(c), z=c['z'], mode=c['mode'], schedule=''.join(map(str, c['schedule']))[:120]) for c in cases[:3] + cases[-2:]]
     if not any(f['cls'] == 'compress-outside-lock' for f in res.failures):
